@@ -98,6 +98,9 @@ fn main() {
                     st.run_ops(&ops);
                     println!("{}", trace::outs_short(&st.trace.outs));
                     println!("idle={} can_block={}", st.k.is_idle(), st.k.can_block_update_idle_waiting(1));
+                    if std::env::var_os("KSIM_DUMP").is_some() {
+                        println!("dynamic_macros={:?}", st.k.dynamic_macros);
+                    }
                     0
                 }
                 Err(e) => {
@@ -175,7 +178,9 @@ fn main() {
             let idx: u64 = args.get(3).and_then(|s| s.parse().ok()).unwrap_or(0);
             match props::by_id(&prop) {
                 Some(p) => {
-                    let c = p.gen(runner::run_seed(seed, idx), Tier::Quick);
+                    // "s<run seed>" regenerates the case of a recorded run seed
+                    let rs = args.get(3).and_then(|a| a.strip_prefix('s')).and_then(|a| a.parse::<u64>().ok()).unwrap_or_else(|| runner::run_seed(seed, idx));
+                    let c = p.gen(rs, Tier::Quick);
                     println!("{}", serde_json::to_string_pretty(&c).unwrap());
                     0
                 }
